@@ -389,16 +389,24 @@ def validate_traces(out, name, trace_module, trace_cfg, jobs, why_filter=lambda 
         if kept:
             want = {e["run"] for e in kept}
             scen = [] if j["scenarios"] == j["trace"] else [l for l in open(j["scenarios"]) if l.startswith("<<") or l.startswith("{")]
+            # the first events of the run and the events leading to the rejected line
             events = {r: [] for r in want}
-            for l in open(j["trace"]):
+            upto = {}
+            for e in kept:
+                upto[e["run"]] = min(upto.get(e["run"], 1 << 60), e.get("line", 1 << 60))
+            for ln, l in enumerate(open(j["trace"]), 1):
                 m = RUN_FIELD.search(l)
-                if m and int(m.group(1)) in want and len(events[int(m.group(1))]) < 60:
-                    events[int(m.group(1))].append(json.loads(l))
+                if m and int(m.group(1)) in want:
+                    r_ = int(m.group(1))
+                    if len(events[r_]) < 30 or (upto[r_] - 30 <= ln <= upto[r_]):
+                        events[r_].append(dict(json.loads(l), line=ln))
             for e in kept:
                 ops = decode_scn(scen[e["run"] - 1]) if e["run"] - 1 < len(scen) else None
-                subj = next((x.get("subj") for x in events[e["run"]] if x.get("ev") == "reset"), None)
+                subj = next((x.get("subj") or (x.get("kind") if j.get("sigprefix") == "index-walk" else None)
+                             for x in events[e["run"]] if x.get("ev") == "reset"), None)
                 out.add_violation({"sig": "%s:%s%s" % (j.get("sigprefix", name), (subj + ":") if subj else "", e["why"]), "why": e["why"], "run": e["run"],
                                    "scenario": ops, "events": events[e["run"]], "label": j["label"], "ty": j.get("ty"),
+                                   "line": e.get("line"), "regen": j.get("regen"),
                                    "rejected_runs_with_this_reason": per_why[e["why"]]},
                                   name, j["profile"], j["replay"])
         os.remove(outp)
@@ -480,8 +488,8 @@ def contract_trace_stage(out, props, q, seed, subjects=None, runs=None):
         if rc != 0:
             log(o[-2000:])
             raise ToolError("drive failed")
-        jobs.append({"label": prof, "trace": tr, "scenarios": tr, "profile": profile_label(prof), "replay": "contract",
-                     "sigprefix": "contract"})
+        jobs.append({"label": prof, "trace": tr, "scenarios": tr, "profile": profile_label(prof), "replay": "regen",
+                     "sigprefix": "contract", "regen": {"args": args[1:-1], "module": "TraceContract.tla", "cfg": "TraceContract.cfg"}})
     validate_traces(out, "contract-traces", "TraceContract.tla", os.path.join(SPEC, "TraceContract.cfg"), jobs,
                     why_filter=None, prop_filter=set(props), timeout=3000)
     for j in glob.glob(os.path.join(wd, "*.ndjson")):
@@ -495,13 +503,14 @@ def alloc_property(out, q, seed):
     # the allocator is only counted in the release profile as well: both profiles must obey the ledger
     for prof in ("dev", "release"):
         tr = os.path.join(wd, "alloc.%s.ndjson" % prof)
-        rc, o = sh([BIN[prof], "alloc-run", "--seed", str(seed * 100 + 17), "--runs", str(6 if q else 40), "--growth",
-                    str(10 if q else 14), "--out", tr], timeout=3000)
+        args = [BIN[prof], "alloc-run", "--seed", str(seed * 100 + 17), "--runs", str(6 if q else 40), "--growth",
+                str(10 if q else 14), "--out", tr]
+        rc, o = sh(args, timeout=3000)
         if rc != 0:
             log(o[-2000:])
             raise ToolError("alloc-run failed")
-        jobs.append({"label": prof, "trace": tr, "scenarios": tr, "profile": profile_label(prof), "replay": "alloc",
-                     "sigprefix": "alloc"})
+        jobs.append({"label": prof, "trace": tr, "scenarios": tr, "profile": profile_label(prof), "replay": "regen",
+                     "sigprefix": "alloc", "regen": {"args": args[1:-1], "module": "TraceAlloc.tla", "cfg": "TraceAlloc.cfg"}})
     validate_traces(out, "alloc-traces", "TraceAlloc.tla", os.path.join(SPEC, "TraceAlloc.cfg"), jobs, timeout=3000)
     for j in glob.glob(os.path.join(wd, "*.ndjson")):
         os.remove(j)
@@ -584,11 +593,13 @@ def coded_columns_stage(out, q, seed, err_filter):
     jobs = []
     for prof in ("dev", "release"):
         tr = os.path.join(wd, "codedcols.%s.ndjson" % prof)
-        rc, o = sh([BIN[prof], "huffcols-run", "--seed", str(seed * 100 + 31), "--runs", str(300 if q else 3000), "--out", tr])
+        args = [BIN[prof], "huffcols-run", "--seed", str(seed * 100 + 31), "--runs", str(300 if q else 3000), "--out", tr]
+        rc, o = sh(args)
         if rc != 0:
             raise ToolError("huffcols-run failed")
         jobs.append({"label": "codedcols-" + prof, "trace": tr, "scenarios": tr, "profile": profile_label(prof),
-                     "replay": "codedcols", "sigprefix": "coded-columns"})
+                     "replay": "regen", "sigprefix": "coded-columns",
+                     "regen": {"args": args[1:-1], "module": "TraceCodedColumns.tla", "cfg": "TraceCodedColumns.cfg"}})
     validate_traces(out, "coded-columns-traces", "TraceCodedColumns.tla", os.path.join(SPEC, "TraceCodedColumns.cfg"), jobs,
                     err_filter=err_filter)
     for j in glob.glob(os.path.join(wd, "*.ndjson")):
@@ -635,11 +646,13 @@ def summary_stage(out, q, seed):
     jobs = []
     for prof in ("dev", "release"):
         tr = os.path.join(wd, "mg.%s.ndjson" % prof)
-        rc, o = sh([BIN[prof], "mg-run", "--seed", str(seed * 100 + 23), "--runs", str(150 if q else 1500), "--out", tr])
+        args = [BIN[prof], "mg-run", "--seed", str(seed * 100 + 23), "--runs", str(150 if q else 1500), "--out", tr]
+        rc, o = sh(args)
         if rc != 0:
             raise ToolError("mg-run failed")
-        jobs.append({"label": "mg-" + prof, "trace": tr, "scenarios": tr, "profile": profile_label(prof), "replay": "summary",
-                     "sigprefix": "summary", "runs_are_lines": True})
+        jobs.append({"label": "mg-" + prof, "trace": tr, "scenarios": tr, "profile": profile_label(prof), "replay": "regen",
+                     "sigprefix": "summary", "runs_are_lines": True,
+                     "regen": {"args": args[1:-1], "module": "TraceMG.tla", "cfg": "TraceMG.cfg"}})
     validate_traces(out, "summary-traces", "TraceMG.tla", os.path.join(SPEC, "TraceMG.cfg"), jobs, timeout=1800)
     for j in glob.glob(os.path.join(wd, "*.ndjson")):
         os.remove(j)
@@ -718,7 +731,7 @@ def huffman_cmp_stage(out, q, seed):
 REGION_INV = ["RoundTrip", "Shaped", "Dense", "StringsValid", "ClearFresh", "MergeFresh", "CollapseExact",
               "GetExact", "CloneOntoLaw", "OrderLaws", "ReserveItemsSufficient", "ReserveRegionsSufficient"]
 REGION_PROPS = ["AppendOnly", "UsedMonotone"]
-IC_INV = ["Faithful", "LenAgrees", "NoOverflowValue", "StrideExact", "StrideRejectsOnlyBreaks", "StrideRejectIsNoop",
+IC_INV = ["Faithful", "LenAgrees", "IndexAtAgrees", "NoOverflowValue", "StrideExact", "StrideRejectsOnlyBreaks", "StrideRejectIsNoop",
           "CostRule", "Structure"]
 IC_PROPS = ["AppendOnly", "FrozenParts"]
 
@@ -762,6 +775,37 @@ def ic_stage(out, name, prop, kinds, alpha, maxops, ghost, extend=True, **kw):
     return stage_edges(out, name, "ICMC.tla", c, IC_INV, IC_PROPS, "ic-replay", prop, **kw)
 
 
+def walk_filter(pred):
+    def f(e):
+        if e["why"].startswith("TOOL-"):
+            raise ToolError("the index-walk generator exceeded what TraceIC can compute exactly: " + e["why"])
+        return pred(e)
+    return f
+
+
+def ic_walk_stage(out, q, seed, err_filter, name="index-walks"):
+    """impl -> spec: long histories (thousands of pushes: long strides, saturation, overflow of stride * count deep
+    into a run, the u32 -> u64 switch, clears, copies, reservations, iterator windows) of the four index containers,
+    validated against TraceIC.tla - the state machine of IndexContainers.tla over exact 64-bit words"""
+    wd = os.path.join(WORK, out.prop)
+    os.makedirs(wd, exist_ok=True)
+    jobs = []
+    for prof in ("dev", "release"):
+        tr = os.path.join(wd, "%s.%s.ndjson" % (name, prof))
+        args = [BIN[prof], "ic-walk", "--seed", str(seed * 100 + 41), "--runs", str(24 if q else 120), "--len",
+                str(4000 if q else 20000), "--out", tr]
+        rc, o = sh(args, timeout=3000)
+        if rc != 0:
+            log(o[-2000:])
+            raise ToolError("ic-walk failed")
+        jobs.append({"label": "walk-" + prof, "trace": tr, "scenarios": tr, "profile": profile_label(prof), "replay": "regen",
+                     "sigprefix": "index-walk", "regen": {"args": args[1:-1], "module": "TraceIC.tla", "cfg": "TraceIC.cfg"}})
+    validate_traces(out, name + "-traces", "TraceIC.tla", os.path.join(SPEC, "TraceIC.cfg"), jobs, timeout=3000,
+                    err_filter=walk_filter(err_filter))
+    for j in glob.glob(os.path.join(wd, "*.ndjson")):
+        os.remove(j)
+
+
 FS_INV = ["Denote", "LenOK", "GetOK", "RegionShaped", "IndexBytesZero", "IndexCost"]
 FS_OPS_ALL = ["copy", "extend", "from_iter", "clear", "with_capacity", "merge_capacity", "reserve", "reserve_regions",
               "clone", "clone_from", "serde"]
@@ -800,6 +844,7 @@ def run_property(prop, tier, seed):
         ic_stage(out, "small-deep", prop, ["stride", "opt", "list"], "small", 6 if q else 8, 0, extend=False)
         if not q:
             ic_stage(out, "big-deep", prop, ["stride", "opt", "list"], "big", 6, 0, extend=False)
+        ic_walk_stage(out, q, seed, lambda e: e["why"] != "heap-bytes-differ-from-documented-cost")
     elif prop == "C19":
         # ghost = 1: reserve / clone / serde may precede or follow; capacity must stay zero for compressible histories
         ic_stage(out, "full", prop, ["vec", "list", "opt"], "full", 4 if q else 5, 1)
@@ -808,6 +853,7 @@ def run_property(prop, tier, seed):
             ic_stage(out, "big-deep", prop, ["opt", "list"], "big", 6, 0, extend=False)
         stack_stage(out, "flatstack-dense", prop, stack_names(lambda e: e["ic"] == "opt"), 4 if q else 5, 1, 4 if q else 5,
                     ["copy", "extend", "from_iter", "clear", "merge_capacity", "clone", "serde", "reserve"])
+        ic_walk_stage(out, q, seed, lambda e: e["why"] == "heap-bytes-differ-from-documented-cost")
     elif prop == "C01":
         region_stage(out, "push-clear", prop, allnames, 1, 3 if q else 4, 0, 4 if q else 5, ["push", "clear"])
         region_stage(out, "push-from", prop, subjects_where(cat, lambda e: e["caps"]["push_item"]), 2, 3, 0, 3,
@@ -839,6 +885,7 @@ def run_property(prop, tier, seed):
         ic_stage(out, "index-containers", prop, ["vec", "stride", "list", "opt"], "full", 4, 0)
         stack_stage(out, "flatstack", prop, stack_names(), 4 if q else 5, 0, 3, ["copy", "extend", "clear"])
         coded_stage(out, q, seed, lambda e: e.get("afterclear", False) and not e["why"].startswith("cmp"))
+        ic_walk_stage(out, q, seed, lambda e: e.get("afterclear", False) or e["why"] == "clear-panicked")
     elif prop == "C03":
         stack_stage(out, "flatstack", prop, stack_names(), 4 if q else 5, 1, 3 if q else 4, FS_OPS_ALL)
         contract_trace_stage(out, ["C03"], q, seed, runs=0)
@@ -850,6 +897,7 @@ def run_property(prop, tier, seed):
         # coded containers: clone and clone_from (into a differently coded container), then the same continuation
         huffman_random_stage(out, q, seed, lambda e: (e.get("copied", False) or e["why"].startswith("copy")) and not e["why"].startswith("cmp"),
                              "huffman-copies")
+        ic_walk_stage(out, q, seed, lambda e: e.get("copied", False) or e["why"] == "copy-failed")
         contract_trace_stage(out, ["C09"], q, seed)
     elif prop == "C16":
         names = subjects_where(cat, lambda e: e["caps"]["serde"] and not shape_has_f64(e["shape"]))
@@ -954,6 +1002,8 @@ def do_replay(prop, path):
     os.makedirs(wd, exist_ok=True)
     if kind in ("huffman", "dictionary", "dictionary-str", "dictionary-stack"):
         return do_replay_trace(prop, path, r, kind, wd)
+    if kind == "regen":
+        return do_replay_regen(prop, path, r, wd)
     if kind == "alphabet":
         out = Outcome(prop, "quick", 0)
         string_codec_stage(out, q, seed)
@@ -984,6 +1034,60 @@ def do_replay(prop, path):
             bad = True
             log("observed: " + json.dumps(v.get("detail", v.get("observed")))[:3000])
             log("why: " + v.get("why", ""))
+    if bad:
+        log("VIOLATION property=%s replay=%s" % (prop, path))
+        sys.exit(1)
+    log("replay does not reproduce on the current tree")
+    sys.exit(0)
+
+
+def do_replay_regen(prop, path, r, wd):
+    """violations found in seeded random traces: the generator is run again with the recorded arguments on the
+    CURRENT tree (both profiles), the trace is validated by the same monitor, and the replay reproduces when a run
+    is rejected for the same reason (same subject where runs name one)"""
+    g = r.get("regen")
+    if not g:
+        die_tool("replay file carries no regeneration recipe")
+    want_subj = next((x.get("subj") or x.get("kind") for x in r.get("events", []) if x.get("ev") == "reset"), None)
+    bad = False
+    for prof in ("dev", "release"):
+        tr = os.path.join(wd, "regen.%s.ndjson" % prof)
+        rc, o = sh([BIN[prof]] + g["args"] + [tr], timeout=3000)
+        if rc != 0:
+            die_tool("generator failed: " + o[-1000:])
+        e = dict(os.environ)
+        e["TRACE"] = tr
+        outp = os.path.join(wd, "regen.%s.tlcout" % prof)
+        with open(outp, "w") as f:
+            subprocess.run(["java", "-Xss1g", "-XX:+UseG1GC", "-Xmx6g", "-cp", JAR, "tlc2.TLC", "-workers", "1", "-metadir",
+                            os.path.join(wd, "meta"), "-cleanup", "-noGenerateSpecTE", "-config", os.path.join(SPEC, g["cfg"]),
+                            g["module"]], cwd=SPEC, stdout=f, stderr=subprocess.STDOUT, env=e)
+        hits = []
+        for l in open(outp, errors="replace"):
+            m = ERR_LINE.match(l.rstrip("\n"))
+            if m:
+                ej = json.loads(json.loads(m.group(1)))
+                if ej.get("why") == r.get("why"):
+                    hits.append(ej)
+        lines = open(tr).read().splitlines()
+        shown = 0
+        for ej in hits:
+            subj = None
+            for k in range(min(ej["line"], len(lines)) - 1, -1, -1):
+                if '"ev":"reset"' in lines[k]:
+                    rj = json.loads(lines[k])
+                    subj = rj.get("subj") or rj.get("kind")
+                    break
+            if want_subj is not None and subj != want_subj:
+                continue
+            bad = True
+            if shown < 2:
+                shown += 1
+                log("--- profile %s: the specification rejects line %d (%s, %s); events leading to it:" %
+                    (profile_label(prof), ej["line"], ej["why"], subj))
+                for k in range(max(0, ej["line"] - 8), min(ej["line"], len(lines))):
+                    log("   " + lines[k][:400])
+        os.remove(tr)
     if bad:
         log("VIOLATION property=%s replay=%s" % (prop, path))
         sys.exit(1)
